@@ -358,7 +358,7 @@ func resolveRoles(w *World) *Roles {
 		}
 	}
 	// callbacks registered on the task runner / scheduler
-	if is := w.FuncByName("", "(*PipelineRunner).initScheduler"); is != nil {
+	if is := w.FuncByRole("", "(*PipelineRunner).initScheduler", func(f *ssa.Function) bool { return callsNamed(f, "taskctl.NewScheduler") }); is != nil {
 		allInstrs(is, func(in ssa.Instruction) {
 			c := callCommonOf(in)
 			if c == nil || len(c.Args) == 0 {
